@@ -45,7 +45,10 @@ class Inconclusive(Exception):
 def go_env():
     e = dict(os.environ)
     e["PATH"] = GO_TOOLCHAIN + ":" + e.get("PATH", "")
-    e.update(GOTOOLCHAIN="local", GOFLAGS="-mod=mod", GOPROXY="off", GOSUMDB="off", CGO_ENABLED=e.get("CGO_ENABLED", "1"))
+    # scratch worktrees (VERIF_REPO=...) build with -trimpath so that they share one build cache instead of recompiling
+    # the whole module per directory; /repo itself is built as it is
+    flags = "-mod=mod" if os.path.realpath(REPO) == "/repo" else "-mod=mod -trimpath"
+    e.update(GOTOOLCHAIN="local", GOFLAGS=flags, GOPROXY="off", GOSUMDB="off", CGO_ENABLED=e.get("CGO_ENABLED", "1"))
     return e
 
 
